@@ -70,3 +70,62 @@ Proof.
   destruct (all_some (map (fun pb => seqev (snd pb) [] []) bodies)); simpl; auto.
   rewrite app_nil_r. reflexivity.
 Qed.
+
+(** * The shape of the result of [wait] *)
+Definition prodn (l : list nat) : nat := fold_right Nat.mul 1 l.
+
+Lemma list_eqb_refl a : list_eqb a a = true.
+Proof. induction a; simpl; auto. rewrite Nat.eqb_refl. auto. Qed.
+
+Lemma collect_vals vs : collect (map WVal vs) = inl vs.
+Proof. induction vs; simpl; auto. rewrite IHvs. reflexivity. Qed.
+
+(** waiting on an id array of shape [ish] (not a scalar): one row per id, in id order, under the
+    id array's shape -- also when there is exactly one id *)
+Theorem wait_shape ish vs rs :
+  ish <> [] -> vs <> [] -> (forall v, In v vs -> fst v = rs) ->
+  wait_glue ish (map WVal vs) = WVal (ish ++ rs, concat (map snd vs)).
+Proof.
+  intros NI NV SH. unfold wait_glue. destruct ish as [|i ish]; [congruence|].
+  rewrite collect_vals. destruct vs as [|v vs]; [congruence|].
+  assert (F : forallb (fun x => list_eqb (fst x) (fst v)) vs = true).
+  { apply forallb_forall. intros x I. rewrite (SH x), (SH v) by (simpl; auto). apply list_eqb_refl. }
+  rewrite F. rewrite (SH v) by (left; auto). reflexivity.
+Qed.
+
+Theorem wait_shape_empty ish : ish <> [] -> wait_glue ish [] = WVal (ish, []).
+Proof. destruct ish; [congruence|reflexivity]. Qed.
+
+(** a scalar id: the thread's value as it is *)
+Theorem wait_scalar v : wait_glue [] [WVal v] = WVal v.
+Proof. reflexivity. Qed.
+
+(** a failing child: an id array reports the first failing child's own error, a scalar id
+    reports "A thread errored" *)
+Theorem wait_error ish pre c rest :
+  ish <> [] -> wait_glue ish (map WVal pre ++ WErr c :: rest) = WErr c.
+Proof.
+  intros NI. unfold wait_glue. destruct ish as [|i ish]; [congruence|].
+  assert (E : collect (map WVal pre ++ WErr c :: rest) = inr c).
+  { induction pre; simpl; auto. rewrite IHpre. reflexivity. }
+  rewrite E. reflexivity.
+Qed.
+
+Theorem wait_error_scalar c : wait_glue [] [WErr c] = WErr 0%N.
+Proof. reflexivity. Qed.
+
+Lemma prodn_app a b : prodn (a ++ b) = prodn a * prodn b.
+Proof. induction a; simpl; [lia|]. rewrite IHa. lia. Qed.
+
+(** the result is a well-formed array: as many elements as its shape says *)
+Theorem wait_wf ish vs rs s d :
+  ish <> [] -> vs <> [] -> (forall v, In v vs -> fst v = rs /\ length (snd v) = prodn rs) ->
+  length vs = prodn ish ->
+  wait_glue ish (map WVal vs) = WVal (s, d) -> length d = prodn s.
+Proof.
+  intros NI NV SH L E. rewrite (wait_shape ish vs rs) in E; auto; [|intros v I; apply SH; auto].
+  inversion E; subst. rewrite prodn_app, <- L.
+  clear - SH. induction vs as [|v vs IH]; simpl; auto.
+  rewrite app_length, IH by (intros x I; apply SH; right; auto).
+  destruct (SH v) as [_ ->]; [left; auto|]. lia.
+Qed.
